@@ -87,10 +87,14 @@ def classify(backend, tok, allexp_names, allimp=frozenset()):
                 return "cpp-world-post-return-mangled"
         if backend == "csharp" and name.startswith("cabi_post_[async-lift]"):
             return "csharp-async-post-return-ignored"
+        if backend == "csharp" and name.startswith("[dtor]"):
+            return "csharp-world-resource-treated-as-exported"
         return f"export-not-in-world:{backend}"
     name = unhx(p[2])
     if backend == "csharp" and FS_RE.match(name):
         return "csharp-future-stream-intrinsic-names"
+    if backend == "csharp" and unhx(p[1]) == "[export]$root" and name.startswith(("[resource-new]", "[resource-rep]")):
+        return "csharp-world-resource-treated-as-exported"
     if name.startswith("[async-lower]") and (p[1], name[len("[async-lower]"):]) in allimp:
         return ASYNC_FORCED
     if name.startswith("[task-return]") and unhx(p[1]).startswith("[export]"):
@@ -195,6 +199,11 @@ def run(c):
             lreq.append("spec\t" + d["desc"]); lidx.append(("spec", i))
             lreq.append("sets\t" + d["desc"]); lidx.append(("sets", i))
         if d["status"] != "ok": continue
+        if m[2] in ("cpp", "d") and (re.search(r"\(f \w+ \S+ \S+ 1 ", d["desc"]) or re.search(r"\(tids \d", d["desc"])):
+            # async functions / futures / streams: declared unsupported by these two backends (crates/test)
+            d["status"] = "unsupported-feature"
+            status[(m[2], "ok")] -= 1; status[(m[2], "unsupported-feature (async/future/stream)")] += 1
+            continue
         decls = NE.extract(m[2], d["files"])
         d["decls"] = decls
         d["raw"] = NE.raw_attribute_count(m[2], d["files"])
@@ -202,6 +211,7 @@ def run(c):
         d["tokens"] = [decl_token(x) for x in good]
         lreq.append("check\t" + d["desc"] + "".join("\t" + t for t in d["tokens"])); lidx.append(("check", i))
         lreq.append(f"model\t{m[2]}\t" + d["desc"]); lidx.append(("model", i))
+    c.cov["generator_status"] = {f"{b}:{s}": n for (b, s), n in sorted(status.items()) if n}
     if not model:
         return
     lans = parallel_lines([model], lreq, workers=14, timeout=900)
@@ -361,7 +371,9 @@ def run(c):
         d, m = parsed[i], meta[i]
         stE["cases"] += 1; c.evaluations += 1
         reject = any(k.startswith("import-not-in-world") or k.startswith("required-export-missing") or
-                     k in ("csharp-future-stream-intrinsic-names", ASYNC_FORCED) for k, _ in d.get("fails", []))
+                     k in ("csharp-future-stream-intrinsic-names", ASYNC_FORCED) or
+                     (k == "csharp-world-resource-treated-as-exported" and "declared import" in w_)
+                     for k, w_ in d.get("fails", []))
         accepted = a.startswith("ok")
         expect = not reject
         if accepted != expect:
